@@ -7,6 +7,8 @@
            MG <key> <n> { midx left right }*           final polygon_ of the model
            MS <key> nclip nfilt nlive decisions_consumed decisions_total njoin nbad rings_closed init_ok
               (the last three are the executable hypotheses of theorem earclip_contract_partial)
+   HPR <key> <npoly> { <n> { idx }*n }*npoly <ntri> { a b c }*
+        -> MH <key> <n> { pairedHalfedge }*     (AddHalfedge hash pairing model on reversed contours + triangles)
    CVX <key> <npoly> { <n> { idx }*n }*npoly
         -> MC <key> <ntri|undefined> { a b c }*         (TriangulateConvex model)
    The replay oracle answers every geometric question of the model from the
@@ -94,6 +96,18 @@ let () =
             Buffer.add_string b (Printf.sprintf "MC %s %d" key (List.length ts));
             List.iter (fun ((a, b'), c) -> Buffer.add_string b (Printf.sprintf " %d %d %d" (int_of_z a) (int_of_z b') (int_of_z c))) ts;
             print_endline (Buffer.contents b)
+        end else if kw = "HPR" then begin
+          let key = next () in
+          let npoly = nexti () in
+          let polys = List.init npoly (fun _ -> let n = nexti () in List.init n (fun _ -> z_of_int (nexti ()))) in
+          let ntri = nexti () in
+          let ts = List.init ntri (fun _ ->
+            let a = z_of_int (nexti ()) in let b = z_of_int (nexti ()) in let c = z_of_int (nexti ()) in ((a, b), c)) in
+          let ht = addHalfedges (het_halfedges polys ts) in
+          let b = Buffer.create 1024 in
+          Buffer.add_string b (Printf.sprintf "MH %s %d" key (List.length ht.hpair));
+          List.iter (fun p -> Buffer.add_string b (Printf.sprintf " %d" (int_of_z p))) ht.hpair;
+          print_endline (Buffer.contents b)
         end else if kw = "RPL" then begin
           let key = next () in
           let npoly = nexti () in
